@@ -46,6 +46,61 @@ CLAIMS = {
   note="contextlib.ExitStack / generator context-manager semantics are modelled (LIFO, continue past faults, last exception wins, no "
        "suppression); mixins subclass their Initializer base directly; at most one connector/shell/PowerControl per class.",
   ref="DESIGN.md section 4 C13"),
+ "C03": dict(
+  text="Theorems C03.op_spec / C03.case_spec: for every channel state and every read(n)/read()/read_iter(max,k)/readline/write/send/"
+       "sendline/sendcontrol call — and by ChanCase.keeps + induction for every SEQUENCE of operations — the observation satisfies "
+       "Spec.c03: read(n) returns exactly n bytes or raises, every transport request is min(READ_CHUNK_SIZE, max - got), bounded "
+       "iteration never exceeds max, readline consumes exactly up to the first line ending, writes offer the not-yet-accepted rest "
+       "(capped by the slow-send size) and the accepted segments concatenate to the payload for EVERY partial-write oracle, a "
+       "forbidden byte is rejected before the transport write of that call, what reached the transport is a prefix of the request; "
+       "conservation_run: bytes handed out ++ bytes left = scripted stream. The Spec is evaluated on the real Channel over random "
+       "histories, scripts and partial-write oracles.",
+  note="transports accept >= 1 byte per write and honour their timeout (the ChannelIO contract); slow-send chunk size > 0; model tied "
+       "to the code by differential testing.",
+  ref="DESIGN.md section 4 C03"),
+ "C12": dict(
+  text="Theorem C12.spec_holds_partial (+ 53 more): for every well-formed case — machine table with clones, constructor arguments, a "
+       "chain of path operations and queries — the Lean model of tbot's Path wrapper returns exactly what a Lean model of CPython "
+       "3.12 PurePosixPath returns (value or exception type) for every pure operation, parents = iterate parent, and WrongHostError is "
+       "raised iff some Path involved belongs to a machine that is not clone-equivalent, for every host-taking entry point (constructor, "
+       "/, reflected /, joinpath, relative_to, is_relative_to, at_host, escape, redirection tokens, Background, PrivateKeyAuthenticator). "
+       "Two differentials run on the exhaustive segment grid: Lean PurePath vs pathlib, Lean TPath vs the real tbot Path.",
+  note="partial: pathlib itself is the oracle and is modelled (tied by the grid, not by proof); the pathlib 3.12 with_suffix('') quirk on "
+       "a stem '.' is excluded by hypothesis `quirkFree` (negation proved on the witness; listed as known finding); CPython 3.12.1 only.",
+  ref="DESIGN.md section 4 C12"),
+ "C16": dict(
+  text="Theorem C16.run_spec: for EVERY tree of nested testcases (any depth/width; decorator, named decorator and context-manager forms; "
+       "nodes that pass, raise, skip, raise KeyboardInterrupt or catch their children's exceptions) and every sequence of top-level "
+       "testcases, the model of _testcase_block / the decorators / both CLI main loops produces a log that the Spec's stack automaton "
+       "accepts: begin/end events properly nested with matching names, end flags = how the body ended, skip yields None and never "
+       "propagates, NESTING restored, exit status 0 with a final SUCCESS event iff nothing escaped a top-level testcase (130 for "
+       "KeyboardInterrupt), nothing run after the failing testcase. Evaluated on the real decorators in-process (thousands of trees) "
+       "and end-to-end through /venv/bin/newbot and /venv/bin/tbot subprocesses.",
+  note="SystemExit raised by a testcase is outside the domain (newbot maps it to an exit code by design); an end event with "
+       "success=true AND skipped=true is read as 'skipped' (as log_event documents); CPython exception semantics are modelled.",
+  ref="DESIGN.md section 4 C16"),
+ "C17": dict(
+  text="Theorems C17.spec_holds, stored_is_concat, printed_is_render, printed_independent_of_splitting, nothing_printed_above_level, "
+       "logfile_yields: for every sequence of writes the stored text is each normalised write once in order; what EventIO prints "
+       "incrementally equals the batch rendering of the stored text (prefix at every line start) for EVERY splitting of the text into "
+       "writes, and nothing is printed above the verbosity level; for every event list and EVERY read size >= 1 the logparser loop "
+       "yields exactly the events in closing order, given a decoder satisfying DecoderSpec (instantiated by a toy codec in Lean; "
+       "validated against CPython json on every generated file). Evaluated on the real EventIO with captured stdout and the real "
+       "logparser.logfile on files written by the real writer.",
+  note="CPython's json encoder/decoder is abstracted by DecoderSpec (validated by test); no lone surrogates; prefix/verbosity/NESTING "
+       "constant during one event.",
+  ref="DESIGN.md section 4 C17"),
+ "C20": dict(
+  text="Theorem C20.run_spec (+ 21 more): for every machine table (any number of machines, any strings) and every connect/copy "
+       "operation, parsing the ssh/scp argv the model of SSHConnector._connect / copy() / _scp_copy builds gives back exactly the "
+       "remote machine's configuration: user@host (default user from the jump-host chain), port, StrictHostKeyChecking=no iff "
+       "configured, every extra option, BatchMode=yes iff no password, identity file or sshpass password of the authenticator, the "
+       "Control* options iff multiplexing, operand order per direction, executing host; unsupported pairings, foreign key paths and "
+       "undefined authenticators raise and run nothing. The same parsers + Spec judge the argv recorded from the REAL classes on a "
+       "recording lab-host stand-in for ~14 000 cases per run (thorough: the full 1944-configuration product x pairings x directions).",
+  note="paramiko is not installed: a stand-in module makes the real ParamikoConnector class importable in one worker; argv compared word "
+       "by word (quoting is C01's concern); option order not compared.",
+  ref="DESIGN.md section 4 C20"),
 }
 
 REASON_TODO = "check not built yet (work in progress; will be claimed once its Lean model, theorems and correspondence harness exist)"
